@@ -67,6 +67,7 @@ var vPrograms = []vProgram{
 	{"load-unknown-memory-twice", []vIns{{"lw", vI(8, 1, 2, 3, 0x03)}, {"lh", vI(10, 1, 1, 2, 0x03)}, {"lw", vI(6, 1, 2, 3, 0x03)}}, 3},
 	{"store-into-unknown-then-wider-load", []vIns{{"sb", vS(10, 2, 1, 0, 0x23)}, {"lwu", vI(8, 1, 6, 3, 0x03)}, {"lbu", vI(11, 1, 4, 2, 0x03)}}, 3},
 	{"load-straddling-image-end-then-load-behind", []vIns{{"ld", vI(4, 1, 3, 3, 0x03)}, {"lwu", vI(12, 1, 6, 2, 0x03)}}, 2},
+	{"load-straddling-image-start-then-load-inside", []vIns{{"lwu", vI(0xffe, 1, 6, 3, 0x03)}, {"lhu", vI(0, 1, 5, 2, 0x03)}}, 2},
 	{"loop-back-edge", []vIns{{"addi", vI(0xfff, 2, 0, 2, 0x13)}, {"bne", vB(0x1ffc, 0, 2, 1)}}, 4},
 	{"sub-word-ops", []vIns{{"addiw", vI(0x7ff, 2, 0, 3, 0x1b)}, {"sraiw", 0x4000501b | 3<<15 | 3<<7 | 5<<20}, {"sltu", vR(0, 2, 3, 3, 3, 0x33)}}, 3},
 	{"mul-div", []vIns{{"mul", vR(1, 2, 2, 0, 3, 0x33)}, {"divu", vR(1, 2, 3, 5, 3, 0x33)}}, 2},
